@@ -4,7 +4,7 @@
    references are never retransmitted, sync frames are due whenever something is unacknowledged, and the rate
    floor keeps the credit refilling. The end-to-end "delivered before any later packet" and the bounded-time
    delivery are decided on the implementation by the reliable-order and stall oracles (partial). *)
-From UF Require Import Consts Base Frame Sender Receiver FrameQueue SendRate HalfConn HcLemmas SendRateProofs.
+From UF Require Import Consts Base Frame Sender Receiver FrameQueue SendRate HalfConn HcLemmas SendRateProofs ResendKept HcTotal.
 
 (* the scan that decides how far receive() advances the window passes a slot only if its data flag is clear *)
 Theorem C02_window_never_passes_stored_packet :
@@ -32,5 +32,17 @@ Theorem C02_rate_floor :
   forall c now c', SrInv c -> MINIMUM_RATE <= sr_max_rate c -> src_nofeedback_expired c now = Ok c' ->
     sr_rate c' = sr_rate c \/ MINIMUM_RATE <= sr_rate c'.
 Proof. intros c now c' Hi Hm H. destruct (expiry_bounds c now c' Hi Hm H) as [_ [_ [_ G]]]. exact G. Qed.
+
+
+(* the retransmission obligation is never dropped: a fragment that is scheduled for (re)transmission — in the
+   resend queue, or in the pending queue with the resend flag — stays scheduled through EVERY sequence of
+   HalfConnection operations (sends, receives, steps, flushes, frames with any contents) until it has been
+   acknowledged or its packet has been released from the send window (ResendKept.v) *)
+Theorem C02_retransmission_kept :
+  forall u f ops h,
+    emitted u (h_snd h) -> sched u f h ->
+    let h' := fold_left hc_apply ops h in sched u f h' \/ fin u f (h_snd h').
+Proof. exact retransmission_kept. Qed.
+Print Assumptions C02_retransmission_kept.
 
 Check C02_window_never_passes_stored_packet.
